@@ -58,6 +58,8 @@ structure Inv (n : Nat) (secs : Nat → List Section) (s : St)
   log_eq : s.log = flatLog closed ++ openLog s.sem cur
   acct : ∀ i, i < n → secs i = ownedBy i closed ++ (if s.sem = some i then [cur ++ todo] else []) ++ segSecs (rem i)
   owners : ∀ p ∈ closed, p.1 < n
+  -- the counter is 1 when nobody is inside a section and 0 otherwise - never 2 -, and so it read after every operation on it
+  cnt : s.semv = (if s.sem.isNone then 1 else 0) ∧ s.semLog = readings s.log
 
 theorem getElem?_set_self' {α} {l : List α} {i : Nat} {a : α} (h : i < l.length) : (l.set i a)[i]? = some a := by
   simp [h]
@@ -86,7 +88,7 @@ theorem step_preserves' {n secs s closed cur todo rem} (i : Nat) (h : Inv n secs
       simp only [callSteps, List.map_nil, List.nil_append] at hpc
       refine ⟨closed ++ [(i, cur)], [], [], rem, ?_, Or.inr rfl⟩
       simp only [stepThread, hpc]
-      refine ⟨by simpa using h.len, ?_, ?_, ?_, ?_, ?_⟩
+      refine ⟨by simpa using h.len, ?_, ?_, ?_, ?_, ?_, ⟨by simp [h.cnt.1, hs], by simp [h.cnt.1, h.cnt.2, hs, readings, EvK.reading?]⟩⟩
       · intro j hj _
         simp only [List.getElem?_set]
         split
@@ -114,7 +116,7 @@ theorem step_preserves' {n secs s closed cur todo rem} (i : Nat) (h : Inv n secs
       simp only [callSteps, List.map_cons, List.cons_append] at hpc
       refine ⟨closed, cur ++ [c], t, rem, ?_, Or.inl rfl⟩
       simp only [stepThread, hpc]
-      refine ⟨by simpa using h.len, ?_, ?_, ?_, ?_, h.owners⟩
+      refine ⟨by simpa using h.len, ?_, ?_, ?_, ?_, h.owners, ⟨h.cnt.1, by simp [h.cnt.2, readings, EvK.reading?]⟩⟩
       · intro j hj hne
         simp only [List.getElem?_set]
         split
@@ -141,7 +143,7 @@ theorem step_preserves' {n secs s closed cur todo rem} (i : Nat) (h : Inv n secs
         simp only [segSteps] at hpc
         refine ⟨closed, cur, todo, fun j => if j = i then r else rem j, ?_, Or.inl rfl⟩
         simp only [stepThread, hpc]
-        refine ⟨by simpa using h.len, ?_, ?_, ?_, ?_, h.owners⟩
+        refine ⟨by simpa using h.len, ?_, ?_, ?_, ?_, h.owners, h.cnt⟩
         · intro j hj hne
           simp only [List.getElem?_set]
           split
@@ -167,12 +169,14 @@ theorem step_preserves' {n secs s closed cur todo rem} (i : Nat) (h : Inv n secs
         simp only [segSteps] at hpc
         cases hsem : s.sem with
         | some k =>
-          -- blocked at acquire: no-op
-          exact ⟨closed, cur, todo, rem, by simpa [stepThread, hpc, hsem] using h, Or.inl rfl⟩
+          -- blocked at acquire (the counter is 0): no-op
+          have hv : s.semv = 0 := by simp [h.cnt.1, hsem]
+          exact ⟨closed, cur, todo, rem, by simpa [stepThread, hpc, hv] using h, Or.inl rfl⟩
         | none =>
+          have hv : s.semv = 1 := by simp [h.cnt.1, hsem]
           refine ⟨closed, [], sc, fun j => if j = i then r else rem j, ?_, Or.inl rfl⟩
-          simp only [stepThread, hpc, hsem]
-          refine ⟨by simpa using h.len, ?_, ?_, ?_, ?_, h.owners⟩
+          simp only [stepThread, hpc, hv, Nat.succ_ne_zero, if_false]
+          refine ⟨by simpa using h.len, ?_, ?_, ?_, ?_, h.owners, ⟨by simp, by simp [h.cnt.2, readings, EvK.reading?]⟩⟩
           · intro j hj hne
             have hji : ¬ j = i := by intro hc; subst hc; exact hne rfl
             simp only [List.getElem?_set]
@@ -204,17 +208,21 @@ theorem stepThread_sem (s : St) (i h : Nat) (hs : (stepThread s i).sem = some h)
   · left; exact hs
   · left; exact hs
   · split at hs
-    · right; simp at hs; exact hs.symm
     · left; exact hs
+    · right; simp at hs; exact hs.symm
+  · split at hs
+    · left; exact hs
+    · right; simp at hs; exact hs.symm
   · simp at hs
   · left; exact hs
   · left; exact hs
 
 /-- the invariant only reads the semaphore, the program counters and the log -/
 theorem Inv_congr {n secs} {s s' : St} {closed cur todo rem} (h : Inv n secs s closed cur todo rem)
-    (hsem : s'.sem = s.sem) (hpcs : s'.pcs = s.pcs) (hlog : s'.log = s.log) : Inv n secs s' closed cur todo rem :=
+    (hsem : s'.sem = s.sem) (hpcs : s'.pcs = s.pcs) (hlog : s'.log = s.log) (hv : s'.semv = s.semv := by rfl)
+    (hl : s'.semLog = s.semLog := by rfl) : Inv n secs s' closed cur todo rem :=
   ⟨by rw [hpcs]; exact h.len, by rw [hsem, hpcs]; exact h.out, by rw [hsem, hpcs]; exact h.ins,
-   by rw [hsem, hlog]; exact h.log_eq, by rw [hsem]; exact h.acct, h.owners⟩
+   by rw [hsem, hlog]; exact h.log_eq, by rw [hsem]; exact h.acct, h.owners, by rw [hsem, hv, hl, hlog]; exact h.cnt⟩
 
 /-- an idle thread that has done nothing yet is given a program of whole sections -/
 theorem inv_extend {n secs s closed cur todo rem} (h : Inv n secs s closed cur todo rem) (j : Nat) (hj : j < n)
@@ -231,7 +239,7 @@ theorem inv_extend {n secs s closed cur todo rem} (h : Inv n secs s closed cur t
     rw [hsec] at this
     have := List.append_eq_nil_iff.mp this.symm
     exact (List.append_eq_nil_iff.mp this.1).1
-  refine ⟨by simpa using h.len, ?_, ?_, h.log_eq, ?_, h.owners⟩
+  refine ⟨by simpa using h.len, ?_, ?_, h.log_eq, ?_, h.owners, h.cnt⟩
   · intro t ht hne
     simp only [List.getElem?_set]
     by_cases htj : t = j
@@ -269,7 +277,6 @@ theorem stepThread_of_not_enabled {s : St} {i : Nat} (h : enabled s i = false) :
   unfold enabled at h
   unfold stepThread
   split <;> simp_all
-  split <;> simp_all
 
 theorem sum_length_set {α} : ∀ {l : List (List α)} {i : Nat} {a : α} {rest : List α}, l[i]? = some (a :: rest) →
     ((l.set i rest).map List.length).sum + 1 = (l.map List.length).sum
@@ -293,9 +300,12 @@ theorem remaining_step {s : St} {i : Nat} (he : enabled s i = true) : remaining 
     | cons st rest =>
       cases st with
       | acq =>
-        cases hsem : s.sem with
-        | some k => simp [hpc, hsem] at he
-        | none => simp only [stepThread, hpc, hsem, remaining]; exact sum_length_set hpc
+        have hv : ¬ s.semv = 0 := by simpa [hpc] using he
+        simp only [stepThread, hpc, hv, if_false, remaining]; exact sum_length_set hpc
+      | tryAcq =>
+        by_cases hv : s.semv = 0
+        · simp only [stepThread, hpc, hv, if_true, remaining]; exact sum_length_set hpc
+        · simp only [stepThread, hpc, hv, if_false, remaining]; exact sum_length_set hpc
       | rel => simp only [stepThread, hpc, remaining]; exact sum_length_set hpc
       | call c r => simp only [stepThread, hpc, remaining]; exact sum_length_set hpc
       | put x => simp only [stepThread, hpc, remaining]; exact sum_length_set hpc
@@ -358,7 +368,7 @@ theorem exists_enabled {n secs s closed cur todo rem} (h : Inv n secs s closed c
     | cons sg r =>
       rw [hr] at hpc
       cases sg with
-      | sec sc => simp [segSteps] at hpc; simp [hpc, hsem]
+      | sec sc => simp [segSteps] at hpc; simp [hpc, h.cnt.1, hsem]
       | put y => simp [segSteps] at hpc; simp [hpc]
 
 theorem firstEnabled_some {s : St} {i : Nat} (h : firstEnabled s = some i) : enabled s i = true := by
